@@ -380,8 +380,77 @@ def shared_cmd_ids(repo, res, rule="FLAGS"):
             res.check("needs_subword_commands_code" in a and "needs_subword_star_code" in a, rule, f"{rule}:{mod}:subword-code-flags", f"write_subword_fn({', '.join(a[1:])})", f"{fn.file}:{sw[0]['l']}")
 
 
+def descrlink(repo, res, ty, rule="DESCRLINK"):
+    """`the description attached to each literal`: fish and zsh print the distinct descriptions as a table indexed by their
+    position in a de-duplicating set, and a second table literal id -> description id.  Both ids must be computed by
+    `<that set>.get_index_of(..)`: the table line's own index, and the id stored next to a literal.  An id computed any other
+    way (a running counter, a position in all_literals) points at another literal's description as soon as two literals share
+    one.  pwsh prints `id = "description"` rows: id and text must come from the same all_literals row (ROLE covers bash-like
+    cells; here the row is checked by provenance)."""
+    from vlib import taint as T, templates as TM
+
+    want = {"fish": 3, "zsh": 2}  # holes that derive from <set>.get_index_of, counted by reading (fish: table index, descr_literal_ids, descr_ids; zsh: table index, descr_id_from_literal_id)
+    for mod, floor in want.items():
+        fn = repo.fn(f"{mod}::write_literals")
+        if fn is None:
+            res.undecided(rule, f"{rule}:{mod}::write_literals", "function not found")
+            continue
+        envs = A.collect_envs(fn)
+        by_set = {}
+        counters = []
+        for s in TM.fmt_sites(fn, envs):
+            if s.macro not in ("write", "writeln"):
+                continue
+            for idx, nm, e in s.holes:
+                env = envs.get(id(e)) or s.env
+                seen = []
+
+                def probe(f, n):
+                    if n["k"] == "MethodCall" and n["method"] in ("get_index_of", "enumerate", "position"):
+                        r = n["recv"]
+                        while r["k"] in ("Ref", "Unary"):
+                            r = r["expr"]
+                        seen.append((n["method"], r.get("path") if r["k"] == "Path" else "<expr>"))
+
+                T.Taint(repo, ty, set(), scalars_clean=False, probe=probe).raw(fn, e, env)
+                what = RE.hole_text(repo, fn, e)
+                for m, recv in set(seen):
+                    if m == "get_index_of":
+                        by_set.setdefault(recv, []).append(what)
+                    else:
+                        counters.append((what, m))
+        sets = sorted(by_set)
+        ok = len(sets) == 1 and len(by_set[sets[0]]) >= floor and not counters
+        why = f"ids derived from {sets[0]}.get_index_of: {by_set[sets[0]]}" if len(sets) == 1 else f"description ids come from {len(sets)} different lookups: {by_set}"
+        if counters:
+            why += f"; ids derived from a running position instead of the description's index: {counters}"
+        if len(sets) == 1 and len(by_set[sets[0]]) < floor:
+            why += f" -- only {len(by_set[sets[0]])} of the {floor} confirmed id holes are computed by that lookup"
+        res.check(ok, rule, f"{rule}:{mod}::write_literals", why, fn.loc())
+    fn = repo.fn("pwsh::write_literals")
+    if fn is None:
+        res.undecided(rule, f"{rule}:pwsh::write_literals", "function not found")
+    else:
+        envs = A.collect_envs(fn)
+        ok = False
+        why = "no `id = text` row found"
+        for n in A.walk(fn.body):
+            if n["k"] == "Macro" and n["name"].split("::")[-1] == "format":
+                s = TM.fmt_site(n, envs.get(id(n)))
+                if s is None or len(s.holes) != 2 or "=" not in s.template:
+                    continue
+                p0 = A.show(A.resolve(s.holes[0][2], envs.get(id(s.holes[0][2])) or s.env))
+                p1 = A.show(A.resolve(s.holes[1][2], envs.get(id(s.holes[1][2])) or s.env))
+                m0 = re.fullmatch(r"(elem\[.*\])\.0", p0)
+                m1 = re.fullmatch(r"make_string_constant\((elem\[.*\])\.2\)", p1)
+                ok = bool(m0 and m1 and m0.group(1) == m1.group(1))
+                why = f"row `{s.template.strip()}`: key <= {p0[:60]}, text <= {p1[:70]}"
+        res.check(ok, rule, f"{rule}:pwsh::write_literals", why + ("" if ok else " -- id and description must be fields .0 and .2 of the same all_literals row"), fn.loc())
+
+
 def run(repo, res, tier):
     ty = typer(repo)
+    descrlink(repo, res, ty)
     tot_s = tot_i = 0
     for mod in RE.EMITTERS:
         base = RE.module_base(repo, mod)
